@@ -127,7 +127,7 @@ class FB:
 
     def close_comment(self):
         c = self._cur
-        self.raw(c.form.close)
+        self.raw(c.form.close.replace("\n", self.eol))
         c.end_off, c.end_line, c.end_col = self.off, self.line, self.col
         self._cur = None
         return c
